@@ -262,19 +262,27 @@ def raw_cases(ctx):
     osubs = [p for k in (1, 2, 3) for p in itertools.permutations(range(3), k)]
     lists = [[a] for a in osubs] + [[a, b] for a in osubs for b in osubs]
     triples = [[a, b, c] for a in osubs for b in osubs for c in osubs]
-    lists += triples if ctx.thorough else rng.sample(triples, 260)
+    lists += triples if ctx.thorough else rng.sample(triples, 400)
     for qss in lists:
         terms = [(rng.randint(0, 1), qs, rand_int_matrix(rng, len(qs), rng.randint(0, 1))) for qs in qss]
         cases.append(("exhaustive3", 3, terms))
     # random: n <= 4 (5 thorough), up to 7 terms, nested / overlapping / repeated ordered subsets
-    for _ in range(400 if ctx.thorough else 140):
+    for _ in range(700 if ctx.thorough else 260):
         n = rng.randint(1, 5 if ctx.thorough else 4)
         nt = rng.randint(1, 7)
         subs = rand_subsets(rng, n, nt)
+        if n >= 4 and rng.random() < 0.3:
+            subs[rng.randrange(len(subs))] = tuple(rng.sample(range(n), 4))  # a four-qubit parent
+        relabel = None
+        if rng.random() < 0.15:
+            # sparse labels (qubit ids up to 9, not contiguous)
+            relabel = sorted(rng.sample(range(10), n))
         terms = []
         for s in subs:
             qs = list(s)
             rng.shuffle(qs)
+            if relabel:
+                qs = [relabel[q] for q in qs]
             terms.append((rng.randint(0, 1), tuple(qs), rand_int_matrix(rng, len(qs), rng.randint(0, 2))))
         cases.append(("random", n, terms))
     return cases
@@ -452,7 +460,7 @@ def circuit_prop_src(build, Hsrc, wsum):
 def corr_symbolic(ctx):
     rng = ctx.rng
     lines, meta = [], []
-    N = 90 if ctx.thorough else 36
+    N = 160 if ctx.thorough else 70
     for k in range(N):
         n = rng.randint(2, 4)
         ms, const = rand_poly(rng, n, rng.randint(2, 7), commuting=None)
@@ -595,6 +603,10 @@ def steps_suite(ctx):
     # the §4 F22 inputs literally
     for tf, dt in [(0.3, 0.1), (0.7, 0.1), (0.6, 0.2), (0.35, 0.05), (1.0, 0.1), (2.4, 0.3), (0.9, 0.3), (1.2, 0.4), (4.35, 0.15)]:
         triples.append((tf, 0.0, dt, round(tf / dt)))
+    # many steps, integer-typed arguments, a final time before the start
+    for tf, t0, dt, k in [(1.0, 0.0, 0.001, 1000), (10.0, 0.0, 0.01, 1000), (4.096, 0.0, 0.002, 2048), (3, 0, 1, 3), (7, 2, 1, 5),
+                          (0.0, 0.5, 0.1, 0), (0.2, 0.5, 0.1, 0)]:
+        triples.append((tf, t0, dt, k))
     # non-multiples and the two sides of the 1e-9 window
     for _ in range(60 if ctx.thorough else 30):
         dt = float(Fraction(rng.choice(DTS)))
@@ -646,7 +658,7 @@ def steps_suite(ctx):
 def trotter_search(ctx):
     rng = ctx.rng
     ok = True
-    N = 40 if ctx.thorough else 16
+    N = 60 if ctx.thorough else 28
     # (a) commuting term sets: exact up to a global phase, any dt
     for k in range(N):
         n = rng.randint(2, 4)
@@ -672,6 +684,24 @@ def trotter_search(ctx):
             ok = False
             fail(ctx, "trotter:commuting", f"commuting terms {poly_src(ms, const)} (n={n}): circuit({dt}).unitary() is {d:.3e} away from exp(-i dt H) up to phase",
                  src, expected="< 1e-10", observed=d, broken=["C16_search_trotter"])
+    for expr in ("hamiltonians.X(NQ, dense=False)", "hamiltonians.Y(NQ, dense=False)", "hamiltonians.Z(NQ, dense=False)",
+                 "hamiltonians.MaxCut(NQ, dense=False)", "hamiltonians.TFIM(NQ, h=0.0, dense=False)"):
+        n = rng.randint(2, 4)
+        expr = expr.replace("NQ", str(n))
+        dt = rng.choice([0.1, 0.7, -0.3, 1.9])
+        ctx.case(("trot-comm", expr, dt))
+        ctx.stat("trotter:commuting-models")
+        src = PRE + f"h = {expr}\ndt = {dt!r}\nd = pdist(h.circuit(dt).unitary(), sla.expm(-1j * dt * np.asarray(h.matrix)))\nprint(d)\nsys.exit(0 if d < 1e-10 else 1)\n"
+        try:
+            h = eval(expr, Q)  # noqa: S307
+            d = pdist(h.circuit(dt).unitary(), sla.expm(-1j * dt * np.asarray(h.matrix)))
+        except Exception as ex:  # noqa: BLE001
+            ok = False
+            fail(ctx, "trotter:raises", f"{expr}: {type(ex).__name__}: {ex}", src, broken=["C16_search_trotter"])
+            continue
+        if d > 1e-10:
+            ok = False
+            fail(ctx, "trotter:commuting", f"{expr} (commuting terms): circuit({dt}).unitary() is {d:.3e} away from exp(-i dt H) up to phase", src, expected="< 1e-10", observed=d, broken=["C16_search_trotter"])
     # (b) non-commuting: error ratio err(dt) / err(dt/2) ~ 8 and |err| <= K dt^3
     fams = []
     for k in range(N):
@@ -744,7 +774,7 @@ def evolution_search(ctx):
     M = Q["models"]
     # (a) exponential solver on dense Hamiltonians: exact for every listed (T, t0, dt), all
     # intermediate states seen by the callbacks, second call of the same object
-    combos = [(0.3, 0.0, 0.1), (0.7, 0.0, 0.1), (0.6, 0.0, 0.2), (0.35, 0.0, 0.05), (1.0, 0.0, 0.1), (2.4, 0.0, 0.3),
+    combos = [(2, 0, 1), (0.3, 0.0, 0.1), (0.7, 0.0, 0.1), (0.6, 0.0, 0.2), (0.35, 0.0, 0.05), (1.0, 0.0, 0.1), (2.4, 0.0, 0.3),
               (1.3, 1.0, 0.1), (0.9, 0.3, 0.3), (2.2, 0.7, 0.15), (0.1, 0.1, 0.1), (0.05, 0.0, 0.05)]
     for j, (T, t0, dt) in enumerate(combos):
         n = rng.randint(1, 3)
@@ -794,6 +824,7 @@ def evolution_search(ctx):
         for dense in ((True, False) if solver != "trotter" else (False,)):
             for td in (False, True):
                 settings.append((solver, dense, td))
+    settings = settings * (3 if ctx.thorough else 2)
     for solver, dense, td in settings:
         n = rng.randint(2, 3)
         ms, const = rand_poly(rng, n, rng.randint(3, 6), commuting=False, integer=False)
@@ -992,9 +1023,11 @@ def history_search(ctx):
         except Exception as ex:  # noqa: BLE001
             ok = False
             fail(ctx, "circuit:raises", f"{type(ex).__name__}: {ex}", src, broken=["C16_search_history"])
-    for solver in ("exp", "rk4", "trotter"):
+    for solver, first0 in (("exp", True), ("exp", False), ("rk4", True), ("rk4", False), ("trotter", True), ("trotter", False)):
         n = 2
-        ms, const = rand_poly(rng, n, 3, commuting=False, integer=False)
+        # the Trotter variant uses commuting terms, so that every step is exact and the times at
+        # which H(t) is read are visible in the result
+        ms, const = rand_poly(rng, n, 3, commuting=(solver == "trotter"), integer=False)
         Hm = poly_matrix(ms, const, n)
         psi = rstate(rng, n)
         dense = solver != "trotter"
@@ -1002,33 +1035,37 @@ def history_search(ctx):
         if dense:
             hsrc = f"H0 = {arr_src(Hm)}\nham = lambda t: Hamiltonian({n}, (1 + t) * H0)\n"
         else:
-            hsrc = f"ham = lambda t: SymbolicHamiltonian((1 + t) * ({poly_src(ms, const)}), nqubits={n})\n"
+            hsrc = f"H0 = {arr_src(Hm)}\nham = lambda t: SymbolicHamiltonian((1 + t) * ({poly_src(ms, const)}), nqubits={n})\n"
+        runs = [(0.5, 0.0), (1.2, 0.7)] if first0 else [(1.2, 0.7), (0.5, 0.0)]
+        (Ta, ta), (Tb, tb) = runs
         src = PRE + hsrc + (f"psi = {arr_src(psi)}\nev = models.StateEvolution(ham, 0.1, solver={qsolver!r})\n"
-                            "a = ev(final_time=0.5, start_time=0.0, initial_state=psi.copy())\n"
-                            "b = ev(final_time=1.2, start_time=0.7, initial_state=psi.copy())\n"
-                            f"b2 = models.StateEvolution(ham, 0.1, solver={qsolver!r})(final_time=1.2, start_time=0.7, initial_state=psi.copy())\n"
-                            "print(np.abs(b - b2).max())\nsys.exit(0 if np.abs(b - b2).max() < 1e-12 else 1)\n")
-        ctx.case(("evol-history", solver))
+                            f"a = ev(final_time={Ta}, start_time={ta}, initial_state=psi.copy())\n"
+                            f"b = ev(final_time={Tb}, start_time={tb}, initial_state=psi.copy())\n"
+                            f"b2 = models.StateEvolution(ham, 0.1, solver={qsolver!r})(final_time={Tb}, start_time={tb}, initial_state=psi.copy())\n"
+                            f"ref = psi.copy()\nfor j in range(5): ref = sla.expm(-1j * 0.1 * (1 + {tb} + 0.1 * j) * H0) @ ref\n"
+                            f"d2 = pdist(b, ref) if {solver != 'rk4'} else 0.0\n"
+                            "print(np.abs(b - b2).max(), d2)\nsys.exit(0 if np.abs(b - b2).max() < 1e-12 and d2 < 1e-9 else 1)\n")
+        ctx.case(("evol-history", solver, first0))
         ctx.stat("history:evolution-object-reused")
         try:
             env = dict(Q)
             exec(hsrc, env)  # noqa: S102
             ev = M.StateEvolution(env["ham"], 0.1, solver=qsolver)
-            ev(final_time=0.5, start_time=0.0, initial_state=psi.copy())
-            b = ev(final_time=1.2, start_time=0.7, initial_state=psi.copy())
-            b2 = M.StateEvolution(env["ham"], 0.1, solver=qsolver)(final_time=1.2, start_time=0.7, initial_state=psi.copy())
-            # the time the solver hands to H(t): compare with an explicit product of propagators
-            if solver == "exp":
+            ev(final_time=Ta, start_time=ta, initial_state=psi.copy())
+            b = ev(final_time=Tb, start_time=tb, initial_state=psi.copy())
+            b2 = M.StateEvolution(env["ham"], 0.1, solver=qsolver)(final_time=Tb, start_time=tb, initial_state=psi.copy())
+            # the times the solver hands to H(t): compare with the explicit product of step propagators
+            if solver != "rk4":
                 refp = psi.copy()
                 for j in range(5):
-                    refp = sla.expm(-1j * 0.1 * (1 + 0.7 + 0.1 * j) * Hm) @ refp
-                dref = np.abs(b - refp).max()
+                    refp = sla.expm(-1j * 0.1 * (1 + tb + 0.1 * j) * Hm) @ refp
+                dref = pdist(b, refp)
             else:
                 dref = 0.0
             if np.abs(b - b2).max() > 1e-12 or dref > 1e-9:
                 ok = False
-                fail(ctx, f"evolve:second-run:{solver}", f"an evolution object used twice (H(t)=(1+t)H0, solver {qsolver}) differs from a fresh object by {np.abs(b - b2).max():.3e}; "
-                     f"deviation from the product of step propagators at t0 + j dt: {dref:.3e}", src, broken=["C16_search_history"])
+                fail(ctx, f"evolve:second-run:{solver}", f"an evolution object (H(t)=(1+t)H0, solver {qsolver}) run for {runs[0]} and then for {runs[1]} (final, start): differs from a fresh object by {np.abs(b - b2).max():.3e}; "
+                     f"deviation from the product of the step propagators exp(-i dt H(t0 + j dt)): {dref:.3e}", src, broken=["C16_search_history"])
         except Exception as ex:  # noqa: BLE001
             ok = False
             fail(ctx, f"evolve:raises:{solver}", f"{type(ex).__name__}: {ex}", src, broken=["C16_search_history"])
@@ -1158,6 +1195,59 @@ def adiabatic_search(ctx):
         except Exception as ex:  # noqa: BLE001
             ok = False
             fail(ctx, "adiabatic:raises", f"AdiabaticEvolution {solver}: {type(ex).__name__}: {ex}", src, broken=["C16_search_adiabatic"])
+    # the times at which the adiabatic Hamiltonian is read: exact propagators (dense) / commuting
+    # terms (Trotter), so the result is the explicit product over the steps
+    for dense in (True, False):
+        n = 2
+        if dense:
+            ms0, c0 = rand_poly(rng, n, 2, commuting=None, integer=False)
+            ms1, c1 = rand_poly(rng, n, 3, commuting=None, integer=False)
+        else:
+            ms0, c0 = rand_poly(rng, n, 2, commuting=True, integer=False, zonly=True)
+            ms1, c1 = rand_poly(rng, n, 3, commuting=True, integer=False, zonly=True)
+        H0, H1 = poly_matrix(ms0, c0, n), poly_matrix(ms1, c1, n)
+        psi = rstate(rng, n)
+        Ttot, dt, ks = 0.6, 0.2, 3
+        if dense:
+            hs = f"h0 = Hamiltonian({n}, {arr_src(H0)})\nh1 = Hamiltonian({n}, {arr_src(H1)})\n"
+        else:
+            hs = f"h0 = SymbolicHamiltonian({poly_src(ms0, c0)}, nqubits={n})\nh1 = SymbolicHamiltonian({poly_src(ms1, c1)}, nqubits={n})\n"
+        refp = psi.copy()
+        for j in range(ks):
+            sj = (j * dt / Ttot) ** 2
+            refp = sla.expm(-1j * dt * ((1 - sj) * H0 + sj * H1)) @ refp
+        src = PRE + hs + (f"psi = {arr_src(psi)}\nref = {arr_src(refp)}\nnr = callbacks.Norm()\n"
+                          f"ev = models.AdiabaticEvolution(h0, h1, lambda x: x ** 2, {dt}, callbacks=[nr])\nout = ev(final_time={Ttot}, initial_state=psi.copy())\n"
+                          "d = pdist(out, ref)\nprint(d, len(nr.results))\n" + f"sys.exit(0 if d < 1e-9 and len(nr.results) == {ks + 1} else 1)\n")
+        ctx.case(("adiabatic-steps", dense))
+        ctx.stat("adiabatic:step-times")
+        try:
+            env = dict(Q)
+            exec(hs, env)  # noqa: S102
+            nr = Q["callbacks"].Norm()
+            ev = M.AdiabaticEvolution(env["h0"], env["h1"], lambda x: x**2, dt, callbacks=[nr])
+            out = ev(final_time=Ttot, initial_state=psi.copy())
+            d = pdist(out, refp)
+            if d > 1e-9 or len(nr.results) != ks + 1:
+                ok = False
+                fail(ctx, "adiabatic:step-times:" + ("dense" if dense else "trotter"),
+                     f"AdiabaticEvolution(s = x², dt={dt}, 'exp', {'dense' if dense else 'symbolic commuting'})(final_time={Ttot}): {d:.3e} away from the product of exp(-i dt H(j dt)), {len(nr.results)} callback records (expected {ks + 1})",
+                     src, expected="< 1e-9", observed=d, broken=["C16_search_adiabatic"])
+            # parametrised schedule: set_parameters([p, T]) fixes s(t) = t ** p and the total time
+            ev2 = M.AdiabaticEvolution(env["h0"], env["h1"], lambda x, p: x ** p[0], dt)
+            ev2.set_parameters([2.0, 1.5])
+            tt = 0.9
+            st = (tt / 1.5) ** 2
+            d2 = np.abs(np.asarray(ev2.hamiltonian(tt).matrix) - ((1 - st) * H0 + st * H1)).max()
+            if d2 > 1e-9:
+                ok = False
+                fail(ctx, "adiabatic:set-parameters", f"AdiabaticEvolution with s(t, p) = t ** p[0] after set_parameters([2.0, 1.5]): H(0.9) differs from (1-s)H0 + sH1 by {d2:.3e}",
+                     PRE + hs + f"ev = models.AdiabaticEvolution(h0, h1, lambda x, p: x ** p[0], {dt}); ev.set_parameters([2.0, 1.5])\nst = (0.9 / 1.5) ** 2\n"
+                     f"d = np.abs(np.asarray(ev.hamiltonian(0.9).matrix) - ((1 - st) * {arr_src(H0)} + st * {arr_src(H1)})).max()\nprint(d)\nsys.exit(0 if d < 1e-9 else 1)\n",
+                     broken=["C16_search_adiabatic"])
+        except Exception as ex:  # noqa: BLE001
+            ok = False
+            fail(ctx, "adiabatic:raises", f"AdiabaticEvolution step times: {type(ex).__name__}: {ex}", src, broken=["C16_search_adiabatic"])
     ctx.ob("C16_search_adiabatic", ok, "search", "" if ok else "see failing inputs")
 
 
